@@ -24,10 +24,10 @@ func VerifC08LargeSetup() {
 	}
 }
 
-// A data-changing statement that fails at a late record of a table beyond csvq's size thresholds (161, 301
-// or 340 records; one or two workers): the stored table keeps every cell - the very objects - it had.
+// A data-changing statement that fails at a late record of a table beyond csvq's size thresholds (161, 301,
+// 323 or 340 records; one or two workers; failing at the tenth record from the end or at the last one): the stored table keeps every cell - the very objects - it had.
 func VerifC08FailingOnLargeTable() {
-	sizes := []int{161, 301, 340}
+	sizes := []int{161, 301, 323, 340}
 	n := sizes[verifChoice("size", len(sizes))]
 	tx := verifNewTx()
 	tx.Flags.Quiet = true
@@ -39,7 +39,11 @@ func VerifC08FailingOnLargeTable() {
 		rows[i] = []value.Primary{value.NewInteger(int64(i)), value.NewInteger(int64(i * 3))}
 	}
 	verifTempTable(scope, "big", []string{"id", "v"}, rows)
-	verifVar(scope, "at", value.NewInteger(int64(n-10)))
+	at := n - 10 // a late record, or the very last one
+	if verifChoice("at-the-last-record", 2) == 1 {
+		at = n - 1
+	}
+	verifVar(scope, "at", value.NewInteger(int64(at)))
 	si := verifChoice("statement", len(verifC08LargeStmts))
 	_, err := proc.Execute(verifCtx(), verifC08LargeStmts[si])
 	verifAssert("the statement fails (division by zero at a late record)", err != nil)
